@@ -27,8 +27,6 @@ TRUSTED_BASE = [
 ASSUMPTIONS = [
     "sources handed to ReadFrom / io.Copy: a finite byte string chopped arbitrarily, with (0, nil) reads and with the last bytes returned together "
     "with the final error or not; the final error is io.EOF (theorems) or another error (model + differential only)",
-    "known findings F32-F34 (lz4 ReadFrom after Write, lz4 / gzip WriteTo after Read: library methods promoted by the wrappers) are replayed by the "
-    "'quirk' cases and those three mixes are otherwise avoided for lz4 / gzip in the public-API round trips",
     "the underlying io.Reader delivers a finite byte string then io.EOF (short reads allowed); the underlying io.Writer either accepts everything or fails "
     "with a short write after a byte budget; other transport errors are C17's business",
     "writer input capacity <= 2^31 in framed mode (a block's encoded length must fit the 4-byte frame length); payloads up to 70 KB (xerial layer, model "
@@ -49,9 +47,11 @@ def classify(c):
                     input=c)
     if op == "sb":
         return dict(layer="correspondence", what="the harness's strict snappy block decoder and coq/Spec/SnappyBlock.v disagree on a chunk", input=None)
-    if op == "quirk":
-        return dict(layer="property", key="C16-" + c["args"].strip(),
-                    what=f"codec wrapper exposes a library method that fails in a mix of calls: {c['args']}: {go[:200]}", input=c)
+    if op == "mix":
+        return dict(layer="property", what=f"a mix of Write/ReadFrom or Read/WriteTo calls on one codec stream failed (regression of F32-F34): "
+                                           f"{c['args']}: {go[:200]}", input=c)
+    if op == "proto":
+        return dict(layer="property", what=f"protocol.RecordSet.WriteTo with a compressed record set did not round-trip: {c['args']}: {go[:200]}", input=c)
     if op in ("rt", "hist", "conc"):
         what = {"rt": "codec round trip / interoperability with the reference library failed",
                 "hist": "a pooled codec object that saw a failed or abandoned stream mishandled the next good stream",
@@ -137,7 +137,7 @@ def correspondence(ctx):
                      "Reads / io.Copy / Reads then io.Copy — against the format libraries and the strict snappy decoder in both directions, payloads "
                      "(random, zeros, repetitive, text, JSON-like) up to 300 KB; histories with truncated/"
                      "corrupt/abandoned streams and failing sinks before a good stream; 2-15 goroutines on one codec value).  sb: the strict snappy decoder of the harness vs coq/Spec/SnappyBlock.v on blocks of seven "
-                     "snappy/S2 encoders, also corrupted and cut.  quirk: the three known library mixes.  pool: random "
+                     "snappy/S2 encoders, also corrupted and cut.  mix: regression cases of F32-F34 (lz4 Write then io.Copy; lz4 / gzip Read then io.Copy), which must succeed.  proto: protocol.RecordSet v1/v2 written with each codec from keys/values that are protocol.Bytes with and without a WriteTo method (the protocol-level witness of F32), read back and compared.  pool: random "
                      "New/Use/Close sequences per codec side with object identity observed.  Every case has a non-empty feature vector; "
                      "distinct by hash of op+args",
                 samples=samples, failures=failures)
